@@ -473,7 +473,7 @@ func genC11(g *G) {
 	}
 	cfgs := []cfg{{"0,1,2,3", 1, "m1"}, {"0,1,2,3,4", 2, "1-2-100-104"}}
 	if g.Thorough() {
-		cfgs = append(cfgs, cfg{"5,6,7,8,9,0", 3, "x"}, cfg{"1,2", 1, ""})
+		cfgs = append(cfgs, cfg{"5,6,7,8,9,0", 3, "x"}, cfg{"1,2,3", 1, ""})
 	}
 	for ci, c := range cfgs {
 		hs := c07PeerList(c.holders)
